@@ -1,5 +1,6 @@
 (* driver <prop> <cases.txt>: runs the extracted model on every case line *)
 let () =
+  C06.server_mode := C09.run_line;
   let prop = Sys.argv.(1) and file = Sys.argv.(2) in
   let ic = open_in file in
   let run = match prop with
